@@ -663,12 +663,14 @@ func (p *parser) summarizeOperator(pipe, keyword Token) (*SummarizeOperator, err
 		By:      nullSpan(),
 	}
 
+	trailingComma := nullSpan()
 	for {
 		verifSite(37)
 		col, err := p.summarizeColumn()
 		if isNotFound(err) {
 			break
 		}
+		trailingComma = nullSpan()
 		if col != nil {
 			op.Cols = append(op.Cols, col)
 		}
@@ -684,6 +686,7 @@ func (p *parser) summarizeOperator(pipe, keyword Token) (*SummarizeOperator, err
 			p.prev()
 			break
 		}
+		trailingComma = sep.Span
 	}
 
 	sep, ok := p.next()
@@ -693,6 +696,14 @@ func (p *parser) summarizeOperator(pipe, keyword Token) (*SummarizeOperator, err
 				source: p.source,
 				span:   sep.Span,
 				err:    fmt.Errorf("expected expression or 'by', got EOF"),
+			}
+		}
+		if trailingComma.IsValid() {
+			// A comma may only be followed by another column or 'by'.
+			return op, &parseError{
+				source: p.source,
+				span:   trailingComma,
+				err:    fmt.Errorf("expected expression or 'by' after ',', got EOF"),
 			}
 		}
 		return op, nil
